@@ -3,6 +3,7 @@ package c03
 
 import (
 	"github.com/csgura/fp"
+	"github.com/csgura/fp/hash"
 	"github.com/csgura/fp/immutable"
 	zz "github.com/csgura/fp/internal/zzverif"
 	"github.com/csgura/fp/iterator"
@@ -200,4 +201,35 @@ func VH_c03_zero_map() {
 		agree(m, md, []int{ka, kb}, "zero Map step"+tag)
 	}
 	agree(z, &model{}, []int{ka, kb}, "zero Map unchanged")
+}
+
+// values (and set elements' payloads) may be nil pointers: a key bound to nil is present, Get is Some(nil)
+func VH_c03_nil_values_are_values() {
+	cell := 3
+	var p0, p1 *int
+	if zz.Bool("p0.nonnil") {
+		p0 = &cell
+	}
+	if zz.Bool("p1.nonnil") {
+		p1 = &cell
+	}
+	k0, k1 := zz.Int("k0"), zz.Int("k1")
+	zz.Assume(k0 != k1)
+	m := immutable.Map[int, *int](hash.Number[int]()).Updated(k0, p0).Updated(k1, p1)
+	zz.Assert(m.Size() == 2 && m.Get(k0).IsDefined() && m.Get(k0).Get() == p0 && m.Get(k1).IsDefined() && m.Get(k1).Get() == p1, "a key bound to a nil value is present and Get returns Some(nil)")
+	zz.Assert(m.Contains(k0) && m.Contains(k1), "Contains for keys bound to nil")
+	n := 0
+	for it := m.Iterator(); it.HasNext(); {
+		t := it.Next()
+		zz.Assert((t.I1 == k0 && t.I2 == p0) || (t.I1 == k1 && t.I2 == p1), "Iterator yields the nil-valued entries")
+		n++
+	}
+	zz.Assert(n == 2, "Iterator yields every entry once")
+	u := m.UpdatedWith(k0, func(o fp.Option[*int]) fp.Option[*int] {
+		zz.Assert(o.IsDefined() && o.Get() == p0, "UpdatedWith sees Some(nil) for a key bound to nil")
+		return fp.Some[*int](nil)
+	})
+	zz.Assert(u.Size() == 2 && u.Get(k0).IsDefined() && u.Get(k0).Get() == nil, "UpdatedWith returning Some(nil) keeps the key")
+	r := m.Removed(k0)
+	zz.Assert(r.Size() == 1 && r.Get(k0).IsEmpty() && r.Get(k1).IsDefined(), "Removed")
 }
